@@ -80,4 +80,97 @@ theorem debLess_mono {v1 v1' v2 : VerDeb.Version} (h : debLess v1 v2 = .ok true)
   · exact absurd hh hr
   · rw [hh, hlt']; rfl
 
+/-! ### OSV ranges -/
+
+/-- What a query value contributes as a bound: absent (`""`) or a parsed version. -/
+def Bound {V : Type} (S : Scheme V) (s : Str) (b : Option V) : Prop :=
+  (s = [] ∧ b = none) ∨ (s ≠ [] ∧ S.parse s = b ∧ b.isSome)
+
+/-- `introduced ≤ v` and (`v < fixed` | `v ≤ lastAffected` | nothing). -/
+def inRange {V : Type} (S : Scheme V) (rv : V) (intro fix la : Option V) : Bool :=
+  (match intro with
+   | some iv => decide (S.cmp rv iv ≠ .lt)
+   | none => true) &&
+  (match fix, la with
+   | some fv, _ => decide (S.cmp rv fv = .lt)
+   | none, some l => decide (S.cmp rv l ≠ .gt)
+   | none, none => true)
+
+theorem vulnerableOsv_eq {V : Type} (S : Scheme V) (p : Pkg) (v : Vuln) (rv : V) (q : List (Str × Str))
+    (intro fix la : Option V)
+    (hF : v.fixed ≠ []) (hp : S.parse p.version = some rv) (hq : parseQuery v.fixed = some q)
+    (hi : Bound S (qget q kIntroduced) intro) (hf : Bound S (qget q kFixed) fix)
+    (hl : fix = none → Bound S (qget q kLastAffected) la) :
+    vulnerableOsv S p v = .ok (inRange S rv intro fix la) := by
+  unfold vulnerableOsv inRange
+  simp only [hF, if_false, hp, hq]
+  -- introduced
+  rcases hi with ⟨hi0, rfl⟩ | ⟨hi1, hi2, hi3⟩
+  · simp only [hi0, ne_eq, not_true_eq_false, if_false, Bool.true_and]
+    rcases hf with ⟨hf0, rfl⟩ | ⟨hf1, hf2, hf3⟩
+    · simp only [hf0, not_true_eq_false, if_false]
+      rcases hl rfl with ⟨hl0, rfl⟩ | ⟨hl1, hl2, hl3⟩
+      · simp [hl0]
+      · cases la with
+        | none => simp at hl3
+        | some l => simp [hl1, hl2]
+    · cases fix with
+      | none => simp at hf3
+      | some fv => simp [hf1, hf2]
+  · cases intro with
+    | none => simp at hi3
+    | some iv =>
+      simp only [ne_eq, hi1, not_false_eq_true, if_true, hi2]
+      by_cases hc : S.cmp rv iv = .lt
+      · simp [hc]
+      · simp only [hc, if_false, not_false_eq_true, decide_true, Bool.true_and]
+        rcases hf with ⟨hf0, rfl⟩ | ⟨hf1, hf2, hf3⟩
+        · simp only [hf0, not_true_eq_false, if_false]
+          rcases hl rfl with ⟨hl0, rfl⟩ | ⟨hl1, hl2, hl3⟩
+          · simp [hl0]
+          · cases la with
+            | none => simp at hl3
+            | some l => simp [hl1, hl2]
+        · cases fix with
+          | none => simp at hf3
+          | some fv => simp [hf1, hf2]
+
+/-- The range test is downward closed down to the introduced bound. -/
+theorem inRange_mono {V : Type} (S : Scheme V) (hS : TotalPre S.cmp) {rv rv' : V} {intro fix la : Option V}
+    (h : inRange S rv intro fix la = true) (hle : S.cmp rv' rv ≠ .gt)
+    (hin : ∀ iv, intro = some iv → S.cmp rv' iv ≠ .lt) : inRange S rv' intro fix la = true := by
+  unfold inRange at h ⊢
+  simp only [Bool.and_eq_true] at h ⊢
+  refine ⟨?_, ?_⟩
+  · cases intro with
+    | none => rfl
+    | some iv => simpa using hin iv rfl
+  · cases fix with
+    | some fv =>
+      simp only [decide_eq_true_eq] at h ⊢
+      exact lt_down hS h.2 hle
+    | none =>
+      cases la with
+      | none => rfl
+      | some l =>
+        simp only [decide_eq_true_eq] at h ⊢
+        exact le_down hS h.2 hle
+
+/-! ### claircore.Version / Range -/
+
+theorem nversion_compare_eq (a b : NVersion) :
+    a.compare b = prodCmp strCmp (lexCmp intCmp) (a.kind, a.v) (b.kind, b.v) := by
+  unfold NVersion.compare prodCmp
+  by_cases h : a.kind = b.kind
+  · simp [h, strCmp_totalPre.refl, Ordering.then]
+  · have : strCmp a.kind b.kind ≠ .eq := fun e => h (strCmp_eq.1 e)
+    simp only [ne_eq, h, not_false_eq_true, if_true]
+    cases hh : strCmp a.kind b.kind <;> simp_all [Ordering.then]
+
+theorem nversion_compare_totalPre : TotalPre NVersion.compare := by
+  have : NVersion.compare = keyCmp (prodCmp strCmp (lexCmp intCmp)) (fun a : NVersion => (a.kind, a.v)) := by
+    funext a b; exact nversion_compare_eq a b
+  rw [this]
+  exact keyCmp_totalPre (prodCmp_totalPre strCmp_totalPre (lexCmp_totalPre intCmp_totalPre)) _
+
 end ClairModel.Matchers
